@@ -505,7 +505,11 @@ def _process_internal_events_without_default_matchers(
         if (
             source_flow_state is not None
             and source_flow_state.status == FlowStatus.STOPPED
-            and source_flow_state.flow_id != flow_id
+            and not (
+                # (the restart of an activated flow names its previous instance as source)
+                source_flow_state.flow_id == flow_id
+                and event.arguments.get("activated", None)
+            )
         ):
             # The flow that wanted to start this flow was aborted in the meantime (e.g. by its parent),
             # starting the flow now would leave it running without a running parent
